@@ -308,8 +308,9 @@ pub fn gen_c07(r: &mut Rng, id: u64, thorough: bool) -> Value {
                 json!({"op": "remove_profile", "name": p})
             }
             4 => json!({"op": "list_profiles"}),
-            5..=9 => json!({"op": "insert", "s": sid, "k": k, "c": c, "n": n, "v": value(r), "t": tags(r), "e": null}),
-            10 | 11 => json!({"op": "replace", "s": sid, "k": k, "c": c, "n": n, "v": value(r), "t": tags(r), "e": null}),
+            // some records carry an expiry that is far from elapsing (they must stay inside their profile like any other)
+            5..=9 => json!({"op": "insert", "s": sid, "k": k, "c": c, "n": n, "v": value(r), "t": tags(r), "e": if r.chance(1, 4) { json!(86_405_000i64) } else { Value::Null }}),
+            10 | 11 => json!({"op": "replace", "s": sid, "k": k, "c": c, "n": n, "v": value(r), "t": tags(r), "e": if r.chance(1, 4) { json!(86_405_000i64) } else { Value::Null }}),
             12 | 13 => json!({"op": "remove", "s": sid, "k": k, "c": c, "n": n}),
             14..=16 => json!({"op": "fetch", "s": sid, "k": k, "c": c, "n": n}),
             17 | 18 => json!({"op": "fetch_all", "s": sid, "k": opt_kind(r), "c": opt_cat(r), "f": opt_filter(r, 3, 2), "lim": null, "ord": true, "desc": false}),
